@@ -24,6 +24,8 @@ BASE_ISA = {
         'imm_u': {'operand_values': {'i': {'type': 'numeric', 'argument': {'size': 8, 'byte_align': False}}}},
         'addr': {'operand_values': {'ad': {'type': 'address', 'argument': {'size': 16, 'byte_align': True}}}},
         'rel': {'operand_values': {'r': {'type': 'relative_address', 'argument': {'size': 8, 'byte_align': True, 'min': -128, 'max': 127}}}},
+        'rel_end': {'operand_values': {'r': {'type': 'relative_address', 'offset_from_instruction_end': True,
+                                             'argument': {'size': 8, 'byte_align': True, 'min': -128, 'max': 127}}}},
         'ind': {'operand_values': {'in': {'type': 'indirect_numeric', 'argument': {'size': 16, 'byte_align': True}}}},
         'enum': {'operand_values': {'e': {'type': 'enumeration', 'bytecode': {'size': 4, 'value_dict': {'foo': 3, 'bar': 5}},
                                           'argument': {'size': 4, 'byte_align': False, 'value_dict': {'foo': 3, 'bar': 5}}}}},
@@ -33,6 +35,7 @@ BASE_ISA = {
         'ldi': {'bytecode': {'value': 0xA, 'size': 4}, 'operands': {'count': 2, 'operand_sets': {'list': ['reg', 'imm']}}},
         'n12': {'bytecode': {'value': 0x9, 'size': 4}, 'operands': {'count': 1, 'operand_sets': {'list': ['imm_u']}}},
         'brr': {'bytecode': {'value': 0x80, 'size': 8}, 'operands': {'count': 1, 'operand_sets': {'list': ['rel']}}},
+        'bre': {'bytecode': {'value': 0x90, 'size': 8}, 'operands': {'count': 1, 'operand_sets': {'list': ['rel_end']}}},
         'jmp': {'bytecode': {'value': 0x4C, 'size': 8}, 'operands': {'count': 1, 'operand_sets': {'list': ['addr']}}},
         'ldm': {'bytecode': {'value': 0x5, 'size': 4}, 'operands': {'count': 1, 'operand_sets': {'list': ['ind']}}},
         'sel': {'bytecode': {'value': 0x6, 'size': 4}, 'operands': {'count': 1, 'operand_sets': {'list': ['enum']}}},
@@ -57,8 +60,8 @@ PATTERNS = {
 # step templates usable with each pattern; 'BAD' marks templates whose placeholder cannot be filled
 TEMPLATES = {
     'ri': ['ldi @REG(0), @ARG(1)', 'ldi @OP(0), @OP(1)', 'n12 @ARG(1)', 'brr @ARG(1)', 'jmp @ARG(1)', 'push @REG(0)', 'push @OP(0)',
-           'nop', 'ldm [@ARG(1)]', 'ldi b, @ARG(1)+1'],
-    'i': ['n12 @ARG(0)', 'brr @OP(0)', 'jmp @ARG(0)', 'ldi a, @ARG(0)', 'ldm [@OP(0)]', 'nop', 'n12 @ARG(0)+@ARG(0)'],
+           'nop', 'ldm [@ARG(1)]', 'ldi b, @ARG(1)+1', 'bre @ARG(1)'],
+    'i': ['n12 @ARG(0)', 'brr @OP(0)', 'jmp @ARG(0)', 'ldi a, @ARG(0)', 'ldm [@OP(0)]', 'nop', 'n12 @ARG(0)+@ARG(0)', 'bre @OP(0)'],
     'r': ['push @REG(0)', 'push @OP(0)', 'ldi @REG(0), 7', 'nop', 'n12 9'],
     'n': ['ldm @OP(0)', 'ldm [@ARG(0)]', 'jmp @ARG(0)', 'n12 3', 'brr @ARG(0)'],
     'e': ['sel @OP(0)', 'n12 1', 'nop'],
